@@ -1411,6 +1411,13 @@ func (c *compiler) callHelper(n int, Args []ast.Expr, Keywords []*ast.Keyword, S
 	if duplicate != nil {
 		c.panicSyntaxErrorf(duplicate, "keyword argument repeated")
 	}
+	// the operand holds each count in one byte
+	if args > 255 || kwargs > 255 {
+		if len(Args) > 0 {
+			c.panicSyntaxErrorf(Args[0], "more than 255 arguments")
+		}
+		c.panicSyntaxErrorf(Keywords[0], "more than 255 arguments")
+	}
 	op := vm.CALL_FUNCTION
 	if Starargs != nil {
 		c.Expr(Starargs)
